@@ -239,8 +239,20 @@ func RunC16(t *testing.T, rc *core.RunCtx) {
 	if rc.Tier == "thorough" && nCallers > 1 {
 		maxOps = 5
 	}
-	c := lru.NewCache[int, *val](capacity)
-	s := &sched{events: make(chan bool), free: c.VerifTryLock}
+	// One run in two: the cache has a delete callback. It is one more hook
+	// at which the scheduler may switch callers, if the cache mutex is not
+	// held there (on the unchanged tree it is, so the callback is atomic
+	// with the eviction that triggered it).
+	s := &sched{events: make(chan bool)}
+	var opts []lru.CacheOption[int, *val]
+	withCB := tp.Chance(1, 2)
+	if withCB {
+		opts = append(opts, lru.WithDeleteCallback[int, *val](func(int, *val) {
+			s.yield("delete-callback")
+		}))
+	}
+	c := lru.NewCache[int, *val](capacity, opts...)
+	s.free = c.VerifTryLock
 	nextID := 1
 	var gs []*gor
 	for gi := 0; gi < nCallers; gi++ {
